@@ -136,6 +136,12 @@ def constructors(m):
         ("open_grid(exodus)", lambda: _with_attrs(D.exodus(m))),
         ("open_grid(esmf,junk padding)", lambda: _with_attrs(D.esmf(m, padding="junk", dtype="int64"))),
         ("open_grid(icon)", lambda: _with_attrs(D.icon(m))),
+        # index tables already in the library's own integer width (numpy's default for in-memory sources): a reader that converts
+        # with copy=False / asarray and then shifts in place writes into the caller's arrays only for these
+        ("open_grid(mpas,int64)", lambda: _with_attrs(D.mpas(m, optional="all", dtype="int64"))),
+        ("open_grid(mpas,int64,repeat-last)", lambda: _with_attrs(D.mpas(m, optional="all", padding="repeat-last", dtype="int64"))),
+        ("open_grid(exodus,int64)", lambda: _with_attrs(D.exodus(m, dtype="int64"))),
+        ("open_grid(icon,int64)", lambda: _with_attrs(D.icon(m, dtype="int64"))),
     ):
         dsrc = mk()
         if dsrc is not None:
@@ -431,9 +437,10 @@ def _run_exports(case, res):
 def cases(tier):
     out = []
     quick = tier == "quick"
-    for mesh in (["mixedpatch", "cube"] if quick else ["mixedpatch", "cube", "amstrip", "tetra"]):
+    # octa: all-triangle mesh (the only kind the ICON writer can express)
+    for mesh in (["mixedpatch", "cube", "octa"] if quick else ["mixedpatch", "cube", "octa", "amstrip", "tetra"]):
         d = 1 if quick else 2
-        for c in ["from_topology(ndarray)", "from_topology(fill=-1,start=1)", "from_topology(int32,fill=999)", "from_topology(lists)", "from_topology(lon360)", "from_topology(+edges,+centres,+xyz)", "open_grid(dict,start=1)", "from_face_vertices(list)", "from_face_vertices(tuple)", "from_face_vertices(ndarray)", "from_dataset(ugrid,start=1,int32)", "from_dataset(ugrid,start=1,int64,fill=-1)", "open_grid(ugrid ds,lon360)", "from_dataset(std,spec)", "Grid(ds,lon360)", "open_grid(mpas)", "open_grid(mpas,junk padding)", "open_grid(scrip)", "open_grid(exodus)", "open_grid(esmf,junk padding)", "open_grid(icon)"]:
+        for c in ["from_topology(ndarray)", "from_topology(fill=-1,start=1)", "from_topology(int32,fill=999)", "from_topology(lists)", "from_topology(lon360)", "from_topology(+edges,+centres,+xyz)", "open_grid(dict,start=1)", "from_face_vertices(list)", "from_face_vertices(tuple)", "from_face_vertices(ndarray)", "from_dataset(ugrid,start=1,int32)", "from_dataset(ugrid,start=1,int64,fill=-1)", "open_grid(ugrid ds,lon360)", "from_dataset(std,spec)", "Grid(ds,lon360)", "open_grid(mpas)", "open_grid(mpas,junk padding)", "open_grid(scrip)", "open_grid(exodus)", "open_grid(esmf,junk padding)", "open_grid(icon)", "open_grid(mpas,int64)", "open_grid(mpas,int64,repeat-last)", "open_grid(exodus,int64)", "open_grid(icon,int64)"]:
             n = len(INPUT_EVENTS) ** d
             if d == 1:
                 out.append({"kind": "inputs", "mesh": mesh, "ctor": c, "depth": d})
@@ -441,6 +448,8 @@ def cases(tier):
                 step = 400
                 for i0 in range(0, n, step):
                     out.append({"kind": "inputs", "mesh": mesh, "ctor": c, "depth": d, "block": [i0, min(n, i0 + step)]})
+        if mesh == "octa":
+            continue  # inputs only
         for x in _export_names():
             out.append({"kind": "exports", "mesh": mesh, "export": x})
     M = list(_mutator_names())
